@@ -330,6 +330,12 @@ var propStream = stats.Prop(R, "stream", genStream, checkStream)
 
 func TestStream(t *testing.T) { rapid.Check(t, propStream) }
 
+// Several goroutines decoding and displaying independent frames at the same time (a runtime abort such
+// as a concurrent map write kills the process and is reported from the written-ahead case).
+var propParallel = stats.ParallelProp(R, "parallel", genFrame, checkFrame, 6)
+
+func TestParallel(t *testing.T) { rapid.Check(t, propParallel) }
+
 func TestReplay(t *testing.T) { R.Replay(t) }
 
 // FuzzTypedFrame: bytes -> (type selector, payload) framed with a good CRC, so the
